@@ -2,7 +2,8 @@
 """Regenerates /verif/MANIFEST.json from the table below (one source of truth)."""
 import json, subprocess, os
 
-SEQ_NOTE = ("Assumes: small bounds (2-4 tasks, 1-2 epics, 1-2 agents, bounded history) for the exhaustive parts; "
+SEQ_NOTE = ("Assumes: small bounds (2-4 tasks, 1-2 epics, 1-2 agents, bounded history) for the exhaustive parts; beyond them "
+            "(up to 14 tasks, 7 epics, histories of 70-90 commands) the check SAMPLES: seeded random walks driven by the harness and hand-written size probes, judged by the same clauses; "
             "the Go harness only parses/renames observations (ids, agents, timestamp ranks) - every verdict is an ErgoProps clause "
             "evaluated by TLC on values observed from the binary built from /repo with -tags verif. Trusted: TLC + CommunityModules, Go stdlib.")
 
